@@ -61,3 +61,28 @@ Definition name_case (id : Z) (model real : string) : list Z :=
 Definition path_case (id : Z) (p : string) (real_accepts : bool) : list Z :=
   let m := NIC.Lex.IngressPath.ingress_path_ok p in
   [id; if real_accepts then (if m then 1 else 0) else 1; 1; 1; if real_accepts then 9 else 10]%Z.
+
+(* The file set at EVERY reload of a case, not only the end state.
+     files  = every distinct (name, content) that was on disk at some reload; the first nfinal of them
+              are the end state
+     snaps  = the file set (indexes into files) at each earlier reload
+   Every version is lexed and parsed once.  malformed / arity problems are reported for every version
+   (each was loaded at some reload); duplicates of the end state as before; duplicates of an earlier
+   reload that the end state does not show get the kind prefixed with [reload-]. *)
+Definition snap_case (id : Z) (files : list (string * string)) (nfinal : nat) (snaps : list (list nat)) : verdict :=
+  let trees := map (fun f => (fst f, tree_of (snd f))) files in
+  let bad := flat_map (fun f => match snd f with None => [fst f] | Some _ => [] end) trees in
+  let good := flat_map (fun f => match snd f with None => [] | Some ds => [(fst f, ds)] end) trees in
+  let ar := flat_map (fun f => map (fun e => (fst f, fst e, snd e))
+                                   (arity_errors (fctx_of_file (fst f)) (snd f))) good in
+  let pick (l : list nat) :=
+      flat_map (fun i => match nth_error trees i with
+                         | Some (n, Some ds) => [(n, ds)]
+                         | _ => []
+                         end) l in
+  let du := dup_idents_trees (pick (seq 0 nfinal)) in
+  let early := nodup_ident (flat_map (fun s => dup_idents_trees (pick s)) snaps) in
+  let transient := flat_map (fun d => if mem_ident d du then []
+                                      else match d with (k, sc, x) => [("reload-" ++ k, sc, x)] end) early in
+  let n := fold_right (fun f acc => (Z.of_nat (dir_count (snd f)) + acc)%Z) 0%Z good in
+  (id, bad, ar, (du ++ transient)%list, n).
